@@ -135,6 +135,10 @@ func MRZFields(s Source, layout string) mrz.Fields {
 			b[1+s.Intn(len(v)-2)] = '<'
 			v = string(b)
 		}
+		if len(v) < capacity && chance(s, 1, 6) {
+			// right-aligned value: fillers in FRONT (they belong to the field, as blanks)
+			v = strings.Repeat("<", between(s, 1, capacity-len(v))) + v
+		}
 		return v
 	}
 	f.Opt1 = opt(c1)
